@@ -31,9 +31,24 @@ def check(run):
             c = repo.find_cls(pkg, cname)
             if c is None:
                 continue
-            if 'copy' not in c.methods:
+            cm = c.methods.get('copy')
+            if cm is None:
+                # inherited copy(): the method of the nearest base class runs with this class's fields
+                b = c
+                seen_b = set()
+                while cm is None and b is not None and b.name not in seen_b:
+                    seen_b.add(b.name)
+                    nb = None
+                    for bn in b.base_names:
+                        nb = repo.find_cls(pkg, bn.split('.')[-1]) or nb
+                    b = nb
+                    cm = b.methods.get('copy') if b is not None else None
+                if cm is None:
+                    continue
+                effect.check_copy(run, eff, cm, fields, receiver=cname)
+                ncopy += 1
                 continue
-            effect.check_copy(run, eff, c.methods['copy'], fields)
+            effect.check_copy(run, eff, cm, fields)
             ncopy += 1
             if cname == 'CliffordCircuit':
                 # the copy of a circuit is the same chain of (copied) layers: the relinking loop is interpreted on three layers
@@ -90,10 +105,16 @@ def check(run):
             if 'compose' in c.methods:
                 m = c.methods['compose']
                 effect.check_pure(run, eff, m, roots=m.posparams[1:], rule='R4b', what='in-place operation')
+                effect.check_no_capture(run, eff, m)
         for name in ('clifford_rotation_gate', 'identity_circuit', 'brickwall_rcc', 'onsite_rcc', 'global_rcc',
                      'diagonalize', 'SBRG'):
             if repo.has_func(crel, name):
                 effect.check_pure(run, eff, repo.func(crel, name))
+    # masked updates gather-modify-scatter; an in-place kernel must be handed the object's own arrays (R5)
+    from ..rules import inout
+    for rel in (K.PY_P, K.TC_P):
+        inout.check_function(run, repo, repo.func(rel, 'PauliList.rotate_by'), {'clifford_rotate'})
+        inout.check_function(run, repo, repo.func(rel, 'PauliList.transform_by'), {'pauli_transform'})
     # ClassicalShadow.snapshots leaves the base state untouched
     f = repo.func(K.PY_D, 'ClassicalShadow.snapshots')
     ms = [(p, k, via) for p, k, via in eff.summary(f).mod if p.startswith('self.state')]
@@ -120,6 +141,8 @@ def check(run):
     run.floor('R4d', 40)
     run.floor('R4a', 150)
     run.floor('R4b', 20)
+    run.floor('R5', 8)
+    run.floor('R4e', 2)
     run.floor('R10.link', 2)
     run.decide('%d copy methods: fresh result, no mutable field aliases the original, every denotation field derived from '
                'the same-named field; all query methods / constructors of the algebra, map and state classes and the '
